@@ -1,25 +1,32 @@
-(* Property C01 — symbolic tree integrity.  Only statements and [exact]; proofs live in Proofs/SymCoreWF*.v. *)
+(* Property C01 — symbolic tree integrity.  Only statements and [exact]; proofs live in Proofs/SymCoreWF.v,
+   SymCoreWFOps.v (parent / path), SymCoreIds.v (identities). *)
 From PG Require Import Common.Tactics Model.SymCoreDefs Model.SymCoreOps Model.SymCoreSpec
-     Proofs.SymCoreBase Proofs.SymCoreWF Proofs.SymCoreWFOps.
+     Proofs.SymCoreBase Proofs.SymCoreWF Proofs.SymCoreWFOps Proofs.SymCoreIds.
 From Coq Require Import NArith.
 
-(* [wfs st]: every tree the user holds is where it believes to be, node by node: the stored parent of a node is the id of
-   the container it is actually stored in, its stored path is the sequence of keys that leads to it from its root, list keys
-   are the positions 0..n-1, dict keys are distinct, a root has no parent and the empty path (Model/SymCoreSpec.v wf_node). *)
+(* [WF st] (Model/SymCoreSpec.v): every tree the user holds is where it believes to be, node by node -- the stored parent of
+   a node is the id of the container it is actually stored in, its stored path is the sequence of keys that leads to it from
+   its root, list keys are the positions 0..n-1, dict keys are distinct, a root has no parent and the empty path -- and the
+   node ids of the whole forest are pairwise distinct (and below the allocation counter). *)
 
-(* Every step of every operation of the catalogue -- whatever the scope stack, whatever the arguments, whether it succeeds,
-   is refused or fails half-way through a batch -- preserves it (for any quirk flags: no open finding touches integrity). *)
-Theorem C01_step_wf : forall q st o, wfs st -> wfs (fst (step q st o)).
-Proof. exact step_wfs. Qed.
+(* Every step of every operation of the catalogue -- whatever the scope stack and the arguments, whether it succeeds, is
+   refused or fails half-way through a batch -- preserves it (for any quirk flags: no open finding touches integrity). *)
+Theorem C01_step_wf : forall q st o, WF st -> WF (fst (step q st o)).
+Proof. exact step_WF. Qed.
 Print Assumptions C01_step_wf.
 
 (* Hence every finite history from any constructed forest does. *)
 Theorem C01_tree_integrity : forall q ls ops,
-  forallb lit_valid ls = true -> wfs (run_ops q (init_forest ls empty_state) ops).
-Proof. exact history_wfs. Qed.
+  forallb lit_valid ls = true -> WF (run_ops q (init_forest ls empty_state) ops).
+Proof. exact history_WF. Qed.
 Print Assumptions C01_tree_integrity.
 
-(* What it says, in the words of the property: a node stored under key k of a container reports that container as its
+(* The parent / path half alone needs no assumption on identities. *)
+Theorem C01_step_wf_structure : forall q st o, wfs st -> wfs (fst (step q st o)).
+Proof. exact step_wfs. Qed.
+Print Assumptions C01_step_wf_structure.
+
+(* What WF says, in the words of the property: a node stored under key k of a container reports that container as its
    (only) parent and the container's path + k as its path ... *)
 Theorem C01_child_reports_container : forall st r p k cid ck cpa cpt cfl cits i kd pa pt fl its,
   wfs st -> get_at st (r, p) = Some (Node cid ck cpa cpt cfl cits) ->
@@ -29,14 +36,22 @@ Proof. exact child_reports_container. Qed.
 Print Assumptions C01_child_reports_container.
 
 (* ... a root -- in particular a node that an operation removed or replaced, which the step hands back as a root --
-   reports no parent and the empty path ... *)
+   reports no parent and the empty path: it is no longer reported as a child of the tree it was removed from ... *)
 Theorem C01_root_reports_no_parent : forall st r i kd pa pt fl its,
   wfs st -> get_at st (r, []) = Some (Node i kd pa pt fl its) -> pa = None /\ pt = [].
 Proof. exact root_reports_no_parent. Qed.
 Print Assumptions C01_root_reports_no_parent.
 
-(* ... and looking the reported path up from the root returns that very node. *)
+(* ... looking the reported path up from the root returns that very node ... *)
 Theorem C01_path_lookup : forall st r p i k pa pt fl its,
   wfs st -> get_at st (r, p) = Some (Node i k pa pt fl its) -> pt = p.
 Proof. exact path_lookup_wfs. Qed.
 Print Assumptions C01_path_lookup.
+
+(* ... and one node object never appears in two places. *)
+Theorem C01_no_node_twice : forall st r1 p1 r2 p2 i k1 pa1 pt1 fl1 its1 k2 pa2 pt2 fl2 its2,
+  WF st ->
+  get_at st (r1, p1) = Some (Node i k1 pa1 pt1 fl1 its1) -> get_at st (r2, p2) = Some (Node i k2 pa2 pt2 fl2 its2) ->
+  r1 = r2 /\ p1 = p2.
+Proof. exact no_node_twice_WF. Qed.
+Print Assumptions C01_no_node_twice.
